@@ -79,6 +79,9 @@ class SocketTransportSink(MuxSocketTransportSink):
     """Handles the response to a ping.  On failure, shuts down the dispatcher.
     """
     ar, self._ping_ar = self._ping_ar, None
+    if ar is None:
+      # The ping was retired by _Shutdown, or nobody asked for this reply.
+      return
     if msg_type == MessageType.Rping:
       ar.set()
       ping_duration = time.time() - self._last_ping_start
@@ -89,6 +92,9 @@ class SocketTransportSink(MuxSocketTransportSink):
 
   def _PingTimeoutHelper(self):
     ar = self._ping_ar
+    if ar is None:
+      # The ping was retired by _Shutdown before this helper got to run.
+      return
     ar.wait(self._ping_timeout)
     if not ar.successful():
       ar.set_exception(Exception('Ping timed out'))
